@@ -27,6 +27,14 @@ from typing import List, Dict
 
 from pyboolector import Boolector, BoolectorNode
 import pyboolector
+# Newer pyboolector releases expose option ids on the BtorOption enum
+# rather than as module attributes
+_BTOR_OPT_INCREMENTAL = getattr(pyboolector, "BTOR_OPT_INCREMENTAL", None)
+if _BTOR_OPT_INCREMENTAL is None:
+    _BTOR_OPT_INCREMENTAL = pyboolector.BtorOption.BTOR_OPT_INCREMENTAL
+_BTOR_OPT_MODEL_GEN = getattr(pyboolector, "BTOR_OPT_MODEL_GEN", None)
+if _BTOR_OPT_MODEL_GEN is None:
+    _BTOR_OPT_MODEL_GEN = pyboolector.BtorOption.BTOR_OPT_MODEL_GEN
 from vsc.constraints import constraint, soft
 from vsc.model.bin_expr_type import BinExprType
 from vsc.model.constraint_model import ConstraintModel
@@ -142,8 +150,8 @@ class Randomizer(RandIF):
         while rs_i < len(ri.randsets()):
             btor = Boolector()
             self.btor = btor
-            btor.Set_opt(pyboolector.BTOR_OPT_INCREMENTAL, True)
-            btor.Set_opt(pyboolector.BTOR_OPT_MODEL_GEN, True)
+            btor.Set_opt(_BTOR_OPT_INCREMENTAL, True)
+            btor.Set_opt(_BTOR_OPT_MODEL_GEN, True)
             
             start_rs_i = rs_i
 
@@ -307,8 +315,8 @@ class Randomizer(RandIF):
         ret = ""
         
         btor = Boolector()
-        btor.Set_opt(pyboolector.BTOR_OPT_INCREMENTAL, True)
-        btor.Set_opt(pyboolector.BTOR_OPT_MODEL_GEN, True)
+        btor.Set_opt(_BTOR_OPT_INCREMENTAL, True)
+        btor.Set_opt(_BTOR_OPT_MODEL_GEN, True)
         model_valid = False
         
         diagnostic_constraint_l = [] 
@@ -384,8 +392,8 @@ class Randomizer(RandIF):
     def create_diagnostics(self, active_randsets) -> str:
         
         btor = Boolector()
-        btor.Set_opt(pyboolector.BTOR_OPT_INCREMENTAL, True)
-        btor.Set_opt(pyboolector.BTOR_OPT_MODEL_GEN, True)
+        btor.Set_opt(_BTOR_OPT_INCREMENTAL, True)
+        btor.Set_opt(_BTOR_OPT_MODEL_GEN, True)
         model_valid = False
         
         diagnostic_constraint_l = [] 
